@@ -140,6 +140,7 @@ def bad_tables(z):
     d = copy.deepcopy(g2); d[z][1] = d[z][1][:2]; out.append(("ragged", d))
     d = copy.deepcopy(g2); d[z] = d[z][:1]; out.append(("rows-mismatch", d))
     d = copy.deepcopy(g2); d["io"] = d["io"][:2]; out.append(("cols-mismatch", d))
+    d = copy.deepcopy(g2); d[z] = [list(r) for r in zip(*d[z])]; out.append(("transposed", d))   # right element count, wrong shape
     d = copy.deepcopy(good); d["io"] = [0.01, 0.5, 0.1]; out.append(("io-decreasing", d))
     d = copy.deepcopy(good); d["io"] = [0.01, 0.1, 0.1]; out.append(("io-equal", d))
     return out, [("t1", good), ("t2", g2)]
@@ -247,6 +248,6 @@ def main(tier):
     return run.finish(
         rule="E4: (a) for 16 kind/form variants covering all 11 kinds, EVERY non-empty subset of the magnitude parameters (resistance, current, power, drop, thermal resistance; "
              "scalar, list and table forms) given with a negative sign: accepted, probe system (2 phases, the element sleeping in one) solves identically to the magnitudes, Loss>=0, "
-             "Eff<=100, passive |Vout|<=|Vin|; (b) the statement's reject menu (eff, dropout, zero load resistance, 8 malformed-table shapes x 7 table carriers, negative tabulated ig, "
+             "Eff<=100, passive |Vout|<=|Vin|; (b) the statement's reject menu (eff, dropout, zero load resistance, 9 malformed-table shapes x 7 table carriers, negative tabulated ig, "
              "9 malformed limits (single and multi-entry) x 11 kinds, non-numeric rs lists) -> ValueError, with the adjacent good values -> accepted. evaluations = constructor calls.",
         assumptions=["value menus are finite", "unlisted odd argument types are not constrained"])
